@@ -1,19 +1,30 @@
 """C17 — cooperative close pays each side its exact balance; both sign the same tx;
-legacy fee negotiation terminates."""
+legacy fee negotiation terminates; RBF cooperative close state machine agrees and
+makes progress."""
 from lib.verif import *
+from props import c17_rbf as RBF
 
 THEOREMS = [
     "C17_same_tx", "C17_signatures_verify", "C17_exact_balances", "C17_fee_payer_guard",
     "C17_conservation",
     "C17_negotiation_terminates", "C17_negotiation_round_bound_log2",
     "C17_taproot_negotiation_terminates", "C17_ratchet_stuck_refuted",
+    # RBF cooperative close state machine (Coop/RbfProps.v)
+    "C17_rbf_agree_closee", "C17_rbf_agree_closer", "C17_rbf_agree", "C17_rbf_closer_pays",
+    "C17_rbf_progress", "C17_rbf_progress_round",
+    "C17_rbf_shutdown_exchange", "C17_rbf_shutdown_simultaneous", "C17_rbf_flushed",
+    "C17_rbf_sigfield_matches_outputs",
+    "C17_rbf_fee_not_monotone", "C17_rbf_sigfield_mismatch_refuted", "C17_rbf_locktime_refuted",
 ]
-MODULE = "LV.Coop.Props"
-TARGETS = ["theories/Coop/Props.vo", "theories/Coop/Exec.vo", "theories/Coop/Examples.vo"]
+MODULE = "LV.Coop.Props LV.Coop.RbfProps"
+TARGETS = ["theories/Coop/Props.vo", "theories/Coop/Exec.vo", "theories/Coop/Examples.vo",
+           "theories/Coop/GenBridge.vo",
+           "theories/Coop/RbfProps.vo", "theories/Coop/RbfExec.vo", "theories/Coop/RbfExamples.vo"]
 H_WALLET = "lnwallet/verif_coop_test.go"
 H_CLOSER = "chancloser/verif_negotiate_test.go"
+H_RBF = "chancloser/verif_rbf_test.go"   # shares helpers with H_CLOSER
 WARM = [{"pkg": "lnwallet", "files": [H_WALLET]},
-        {"pkg": "lnwallet/chancloser", "files": [H_CLOSER]}]
+        {"pkg": "lnwallet/chancloser", "files": [H_CLOSER, H_RBF]}]
 IMPORTS = ("From Coq Require Import List ZArith NArith Bool.\nImport ListNotations.\n"
            "From LV Require Import Coop.Model Coop.Exec.\n")
 
@@ -288,6 +299,86 @@ def neg_predicate(c):
     return f
 
 
+def rbf_stage(ctx, rrows):
+    """RBF state machine: predicates on the implementation trace + correspondence
+    with Coop/RbfModel.v (RbfExec.mismatches)."""
+    nfail = 0
+    for c in rrows:
+        if c["k"] != "rbf":
+            continue
+        fails = RBF.rbf_predicate(c)
+        if fails:
+            c["_pred_fail"] = True
+            nfail += 1
+            if nfail <= 3:
+                ctx.violation("impl_violates_predicate", fails[0][0],
+                              {"case": {k: c[k] for k in ("name", "ct", "sched", "adversary", "hasty",
+                                                          "envHeight", "capacity")},
+                               "envA": c["A"]["env"], "envB": c["B"]["env"],
+                               "stepsA": c["A"]["steps"], "stepsB": c["B"]["steps"], "fails": fails[:6]},
+                              signature="rbf %s" % fails[0][1][:60])
+    terms, origin = [], []
+    for ri, c in enumerate(rrows):
+        for name, t in RBF.row_terms(c):
+            terms.append(t)
+            origin.append((ri, name))
+    ok, bad, logs = coq_mismatches(ctx.uid("rb"), RBF.IMPORTS, terms,
+                                   shard=max(20, len(terms) // NCPU + 1), scope="Z_scope",
+                                   timeout=3000)
+    if not ok:
+        ctx.violation("correspondence_mismatch", "Coop.RbfExec (model evaluation failed)",
+                      {"logs": logs}, signature="model-eval", failing_input=False)
+    seen = set()
+    for ti, ops in bad:
+        ri, name = origin[ti]
+        c = rrows[ri]
+        key = (c["k"], c.get("name") if c["k"] != "rbf" else "run")
+        if key in seen or len(seen) >= 4:
+            continue
+        seen.add(key)
+        detail = {"case": c if c["k"] != "rbf" else {k: c[k] for k in ("name", "ct", "sched", "adversary")}}
+        if c["k"] == "rbf":
+            n = c[name]
+            i = ops[0] - 1 if ops else 0
+            detail.update({"node": name, "env": n["env"], "step_index": i + 1,
+                           "history": n["steps"][:i + 1]})
+        ctx.violation("correspondence_mismatch", "Coop.RbfExec %s/%s" % (c["k"], name), detail,
+                      signature="rbf mismatch %s" % c["k"],
+                      failing_input=True)
+    # coverage
+    finals, errs, fields, nsteps, rounds = {}, {}, {}, 0, 0
+    def inc(d, k):
+        d[k] = d.get(k, 0) + 1
+    runs = [c for c in rrows if c["k"] == "rbf"]
+    for c in runs:
+        for nm in "AB":
+            st = c[nm]["steps"]
+            nsteps += len(st)
+            last = st[-1]["st"] if st else {"s": "Active"}
+            key = last["s"]
+            if key == "Negotiation":
+                key += ":%s/%s" % (last["l"]["k"], last["r"]["k"])
+            if key == "Dead":
+                inc(errs, "%d/%d" % (last["err"], last["perr"]))
+            inc(finals, key)
+            for s in st:
+                for o in s["outs"]:
+                    if o["o"] == "ClosingComplete":
+                        rounds += 1
+                        inc(fields, RBF.one_field(o["m"]["sigs"]) or "multi")
+    ctx.cov["rbf"] = {
+        "evaluations": len(terms), "runs_two_real_machines": len(runs),
+        "distinct_runs": distinct_count(runs, lambda c: [c["A"]["env"], c["B"]["env"], c["sched"],
+                                                         c["adversary"], c["hasty"]]),
+        "events_fed": nsteps, "offers(closing_complete)": rounds,
+        "closing_complete_fields": fields, "final_states": finals, "error_classes": errs,
+        "taproot_runs": sum(1 for c in runs if c["tap"]),
+        "tampered_runs": sum(1 for c in runs if c["tampered"]),
+        "correspondence_mismatches": len(bad),
+    }
+    ctx._rbf_counts = (len(terms), len(runs), len(rrows))
+
+
 def prep_neg(c):
     if c["err"] == 0 and c["finO"] and c["finR"] and c["trace"]:
         c["agreedFee"] = c["trace"][-1]
@@ -316,17 +407,28 @@ def run(ctx):
         "input.ScriptIsOpReturn is an input of the model (its answer is recorded by the harness)",
         "model of ReceiveClosingSigned abstracts the channel as 'CreateCloseProposal succeeds iff "
         "fee <= opener balance + credit' (n_afford); tied by the two-real-ChanClosers harness",
+        "RBF model: ideal signatures (a signature is the descriptor it is on; CompleteCooperativeClose's "
+        "engine run accepts iff both signatures are on the caller's own tx); MuSig2 nonce plumbing, "
+        "taproot/regular signature-type checks and the taproot shutdown-nonce check are not modelled "
+        "(exercised by the harness on taproot channels)",
+        "RBF model: lnwallet.ValidateUpfrontShutdown is an oracle (its answer is recorded per event); "
+        "ChanObserver.NoDanglingUpdates is true and FinalBalances constant in every run; the harness "
+        "drives the real ProcessEvent methods through a synchronous copy of protofsm's applyEvents "
+        "(the goroutine/event-channel plumbing of protofsm.StateMachine is not exercised)",
     ])
     # the two harness packages are built and run concurrently
     from concurrent.futures import ThreadPoolExecutor
     tmo = 1500 if not ctx.thorough else 5000
-    with ThreadPoolExecutor(max_workers=2) as ex:
+    with ThreadPoolExecutor(max_workers=3) as ex:
         f1 = ex.submit(run_harness, ctx.uid("w"), "lnwallet", [H_WALLET], "^TestVerifCoop$",
                        None, tmo)
         f2 = ex.submit(run_harness, ctx.uid("n"), "lnwallet/chancloser", [H_CLOSER],
                        "^TestVerifNegotiate$", None, tmo)
+        f3 = ex.submit(run_harness, ctx.uid("r"), "lnwallet/chancloser", [H_CLOSER, H_RBF],
+                       "^TestVerifRbf$", None, tmo)
         rc1, trace1, out1 = f1.result()
         rc2, trace2, out2 = f2.result()
+        rc3, trace3, out3 = f3.result()
     rows = read_jsonl(trace1)
     if rc1 != 0 or not rows:
         ctx.violation("harness_failed", "TestVerifCoop", {"log": out1[-4000:]},
@@ -338,6 +440,12 @@ def run(ctx):
                       signature="harness", failing_input=False)
         return
     rows += rows2
+    rrows = read_jsonl(trace3)
+    if rc3 != 0 or not rrows:
+        ctx.violation("harness_failed", "TestVerifRbf", {"log": out3[-4000:]},
+                      signature="harness", failing_input=False)
+        return
+    rbf_stage(ctx, rrows)
 
     # ---- property predicates on the implementation's trace
     nfail = 0
@@ -406,15 +514,18 @@ def run(ctx):
             inc(negres, ("taproot-" if c["tap"] else "") + r)
             inc(rounds, min(len(c["trace"]) // 10 * 10, 100))
     nontrivial = [c for c in rows if c["k"] in ("chan", "dance", "neg")]
+    rt, rr, rn = getattr(ctx, "_rbf_counts", (0, 0, 0))
     ctx.cov.update({
-        "evaluations": len(terms),
+        "evaluations": len(terms) + rt,
         "distinct_nontrivial": distinct_count(
             nontrivial, lambda c: [c.get(k) for k in ("k", "ct", "viewA", "fee", "rbf", "payerA",
-                                                       "io", "ir", "co", "afford", "tap")]),
+                                                       "io", "ir", "co", "afford", "tap")])
+        + ctx.cov.get("rbf", {}).get("distinct_runs", 0),
         "rule": "non-trivial = real channel pair closes (chan/dance) and real two-ChanCloser "
                 "negotiations (neg); distinct by channel type, both views, fee, flow, payer / "
-                "ideal fees, cap, affordability; pure-function grid cases counted in evaluations only",
-        "traces_validated_against_impl": len(rows),
+                "ideal fees, cap, affordability; plus runs of two real RBF state machines (distinct by "
+                "both environments, schedule, tampering); pure-function grid cases counted in evaluations only",
+        "traces_validated_against_impl": len(rows) + rn,
         "predicate_evaluations": pred_evals,
         "case_kinds": kinds, "chan_types": cts, "proposal_error_classes": errs,
         "outputs_per_close_tx": nouts, "negotiation_outcomes": negres,
@@ -425,11 +536,13 @@ def run(ctx):
     })
     ctx.assumptions += [
         "extra/aux close outputs and custom sort (custom channels) are not modelled nor driven",
-        "RBF-coop: the option set rbf_coop_transitions.go passes (closer pays, MaxRBFSequence, locktime, "
-        "OP_RETURN zeroing) is modelled and driven on the real CreateCloseProposal/"
-        "CompleteCooperativeClose; the protofsm state machine itself is not modelled",
+        "RBF-coop: every ProcessEvent of rbf_coop_transitions.go is modelled (Coop/RbfModel.v) and two real "
+        "machines are run against it; C17_rbf_progress covers any sequence of COMPLETE rounds from either "
+        "side (overlapping rounds of the two directions are covered per round by C17_rbf_agree, whose "
+        "other-direction state is arbitrary, and by the harness's random interleavings); taproot nonce "
+        "handling, aux/custom-channel outputs not modelled",
         "negotiation theorem: n_afford abstraction of the channel; cached-ClosingSigned path of "
         "BeginNegotiation not modelled",
     ]
     if ctx.thorough:
-        ctx.coqchk(["LV.Coop.Props"])
+        ctx.coqchk(["LV.Coop.Props", "LV.Coop.RbfProps"])
